@@ -1,0 +1,28 @@
+//go:build verif
+
+package transport
+
+// Verification hook for property C13 (configuration dimension of the frame
+// check). Add-only; compiled only with -tags verif.
+
+import (
+	"github.com/lni/dragonboat/v4/config"
+	"github.com/lni/dragonboat/v4/raftio"
+	pb "github.com/lni/dragonboat/v4/raftpb"
+)
+
+// VerifC13TransportEncrypted builds the TCP transport module for the given
+// NodeHostConfig through NewTCPTransport and returns the flag that its
+// connections (GetConnection, GetSnapshotConnection, serveConn) hand to
+// writeMessage/readMessage to switch the payload checksum off.
+func VerifC13TransportEncrypted(nhConfig config.NodeHostConfig) bool {
+	t := NewTCPTransport(nhConfig,
+		func(pb.MessageBatch) {}, func(pb.Chunk) bool { return true })
+	tcp, ok := t.(*TCP)
+	if !ok {
+		panic("NewTCPTransport did not return *TCP")
+	}
+	return tcp.encrypted
+}
+
+var _ raftio.ITransport = (*TCP)(nil)
